@@ -155,6 +155,17 @@ def kani_bounded_input(o):
            "kani_playback_values": vals, "kani_failed_checks": kani.parse(r["out"]).get("failed_descriptions")}
     if vals is None:
         return res
+    if h["harness"] == "u2f_enc_authentication_response" and len(vals) >= 3:
+        # kani::any order in the harness: signature [u8; 4] (4 one-byte values), counter u32, presence byte
+        flat = [v[0] for v in vals[:4]]
+        ctr = int.from_bytes(bytes(vals[4][:4]), "little")
+        pb = vals[5][0]
+        arg = "%02x%08x%s" % (pb, ctr, "".join("%02x" % b for b in flat))
+        rep = run_replay("u2f-auth-response", arg)
+        res.update({"entry": "u2f-auth-response", "replay_result": rep})
+        if rep.get("violates"):
+            res.update({"input": arg, "reproduced": True})
+        return res
     m = re.match(r"hid_send_len_(\d+)$", h["harness"])
     if m:
         n = int(m.group(1))
